@@ -12,12 +12,18 @@ Spec: spec/AtomicFile.tla (protocol, deviations, specified updater, fidelity) + 
    the snapshot of the disk after operation i and handed to the REAL loader: it must load and equal the old or the new
    version.  IOError@i is realised by re-running the real update with operation i raising OSError; the disk afterwards goes
    to the real loader and the recorded trace goes back through TLC (2).
-4. Fidelity: every update history TLC emits (value classes, "keep" = re-persist the unchanged value, failed updates) is
-   executed on the real writer and read back with the real loader; the result must be the value of the last successful update.
+4. Fidelity: every update history TLC emits (an update assigns a value of one of 13 classes to ONE free-text field of the
+   file or keeps everything, "keep" = re-persist the unchanged values, failed updates) is executed on the real writer and
+   read back with the real loader; the result must be, field by field, the value of the last successful update.  The
+   fields are the free text a file carries from the workflow definition or from the run: error description (status.txt);
+   key-output description, type, name and file name, taken through the REAL path FlowIR `output` section ->
+   OutputAgent.parse_key_outputs -> process_stage -> updateLogs (output.txt/json); exit reason and component name
+   (status_details.json); component arguments, key-output description, variable value (flowir_instance.yaml); source
+   path (manifest.yaml).
 
 Persisted files and their real writer / loader:
   status.txt            Status.update (writeToStream)                       / Status.statusFromFile
-  output.txt, .json     OutputAgent.updateLogs                              / INI reader, json.load
+  output.txt, .json     OutputAgent.parse_key_outputs + process_stage (updateLogs) / INI reader, json.load
   status_details.json   StatusMonitor.try_generate_status_details           / json.load
   flowir_instance.yaml  FlowIRExperimentConfiguration.store_unreplicated_flowir_to_disk (the call made after every loop
                         iteration) and ._generate_instance_files            / ExperimentConfigurationFactory (is_instance)
@@ -34,7 +40,11 @@ from .. import tlc
 from .. import fsrec
 
 PID = "C14"
-CLASSES = ["plain", "newline", "backslash", "equals", "percent", "nonascii", "empty"]
+CLASSES = ["plain", "newline", "optionline", "leadblank", "backslash", "equals", "colon", "percent", "hash", "semicolon",
+           "section", "nonascii", "empty"]
+# identifiers (the name of a key output, the name of its file) are single-line, non-empty and do not start with a blank
+IDENT_CLASSES = ["plain", "backslash", "equals", "colon", "percent", "hash", "semicolon", "section", "nonascii"]
+STRUCTURAL = ["plain", "newline", "optionline", "section", "equals", "colon"]       # pairs of fields explored in quick
 LIVE_NAMES = ["status.txt", "output.txt", "output.json", "status_details.json", "flowir_instance.yaml", "manifest.yaml"]
 
 
@@ -44,9 +54,16 @@ def value(cls, i):
     return {
         "plain": "plain text " + tag,
         "newline": "first line\nsecond line " + tag + "\n\nlast",
+        # continuation lines that look like an option / a YAML mapping / an option the writer emits itself
+        "optionline": "Summary of run " + tag + "\nConverged: yes (see the last column)\nfinal=no further processing\nversion=7",
+        "leadblank": "  indented " + tag,
         "backslash": "C:\\new\\table\\" + tag + " \\\\ \\n is two characters",
         "equals": "key=value=" + tag + " == x",
+        "colon": "key: value " + tag + " :: x",
         "percent": "100% of %s and %(name)s " + tag + " %%",
+        "hash": "a #b " + tag + " # not a comment",
+        "semicolon": "a ;b " + tag + " ; not a comment",
+        "section": "[section] " + tag,
         "nonascii": "caf\u00e9 \u20ac \u4e2d\u6587 " + tag,
         "empty": "",
     }[cls]
@@ -62,14 +79,21 @@ class Unloadable(Exception):
     pass
 
 
+class NotApplicable(Exception):
+    """the configuration layer refuses the value before any writer sees it (not a matter of persistence)"""
+
+
 # =====================================================================================================================
-# Adapters: one per real writer.  set_value() changes the in-memory state the next update persists, update() calls the
-# real writer, load() runs the real loader on given bytes, want() is what the loader must return for the in-memory state.
+# Adapters: one per real writer.  set_field() assigns one free-text field of the in-memory state the next update persists
+# (set_value(): all of them), update() calls the real writer, load() runs the real loader on given bytes, want() is what
+# the loader must return for the in-memory state.
 # =====================================================================================================================
 class Adapter:
     name = ""
     files = []            # abstract names of the live files the writer maintains
-    classes = CLASSES
+    fields = []           # free-text fields (from the workflow definition or from the run) the files carry
+    pairs_quick = []      # pairs of fields whose combinations are explored in the quick tier (thorough: all pairs)
+    config_time = False   # the fields are fixed when the writer is configured (a history = one assignment + n updates)
     reset_possible = False
 
     def __init__(self, scratch):
@@ -77,11 +101,19 @@ class Adapter:
         self.n = 0
         self.nload = 0
 
+    def classes_for(self, field):
+        return CLASSES
+
     def live(self):
         return [self.path[f] for f in self.files]
 
     def render(self, cls, i):
         return value(cls, i)
+
+    def set_value(self, v):
+        self.n += 1
+        for g in self.fields:
+            self.set_field(g, v, bump=False)
 
     def recorded_update(self, fault=None, snapshots=True):
         rec = fsrec.Recorder(self.live(), fault=fault, snapshots=snapshots)
@@ -136,6 +168,7 @@ class Adapter:
 class StatusAd(Adapter):
     name = "status"
     files = ["status.txt"]
+    fields = ["error-description"]     # the other entries of the status are numbers, states from a fixed list and stage%d names
 
     def __init__(self, scratch, tag="s"):
         super().__init__(scratch)
@@ -156,16 +189,17 @@ class StatusAd(Adapter):
         self.st = self.D.Status(self.path["status.txt"], {}, ["stage0", "stage1"])
         self.st.setCreated("2026-01-01T00:00:00.000000+0000")
         self.desc = None
-        self.set_value(None)
+        self.set_field("error-description", None)
 
     def reset(self):
         d = os.path.dirname(self.path["status.txt"])
         for n in os.listdir(d):            # status.txt and the temp files failed updates leave behind
             os.remove(os.path.join(d, n))
 
-    def set_value(self, v):
+    def set_field(self, g, v, bump=True):
         """v: text of the error description; None: there is none"""
-        self.n += 1
+        if bump:
+            self.n += 1
         self.desc = v
         if v is None:
             self.st.removeErrorDescription()
@@ -175,9 +209,6 @@ class StatusAd(Adapter):
         self.st.setCost(self.n)
         self.st.setCurrentStage("stage%d" % (self.n % 2))
         self.st.setStageProgress(0.25)
-
-    def keep(self):
-        pass
 
     def update(self):
         return self.st.update()
@@ -229,6 +260,8 @@ def _flowir():
 class DetailsAd(Adapter):
     name = "status-details"
     files = ["status_details.json"]
+    fields = ["exit-reason", "component"]       # free text from the run (value) and from the workflow definition (key)
+    pairs_quick = [("exit-reason", "component")]
     reset_possible = True
 
     def __init__(self, scratch, tag="d"):
@@ -242,6 +275,7 @@ class DetailsAd(Adapter):
         class DB:
             def getWorkflowStatus(self, json_friendly=True):
                 return ad.doc
+        self.val = {"exit-reason": None, "component": None}
         self.doc = None
         self.mon.set_status_database(DB())
         out = os.path.realpath(self.exp.instanceDirectory.outputDir)
@@ -251,15 +285,16 @@ class DetailsAd(Adapter):
         if os.path.exists(self.path["status_details.json"]):
             os.remove(self.path["status_details.json"])
 
-    def set_value(self, v):
-        self.n += 1
-        comp = {"state": "running", "engine-exit-reason": v, "consecutive": self.n, "extra": [v, {"k": v}]}
-        if v is None:
+    def set_field(self, g, v, bump=True):
+        if bump:
+            self.n += 1
+        self.val[g] = v
+        r = self.val["exit-reason"]
+        comp = {"state": "running", "engine-exit-reason": r, "consecutive": self.n, "extra": [r, {"k": r}]}
+        if r is None:
             comp.pop("engine-exit-reason")
-        self.doc = {"stage0": {"c": comp, "total": self.n}, "current-stage": "stage0"}
-
-    def keep(self):
-        pass
+        name = self.val["component"] if self.val["component"] is not None else "c"
+        self.doc = {"stage0": {name: comp, "total": self.n}, "current-stage": "stage0"}
 
     def update(self):
         return self.mon.try_generate_status_details()
@@ -273,20 +308,47 @@ class DetailsAd(Adapter):
 
 
 class OutputAd(Adapter):
+    """The key-output listing through the REAL path: FlowIR `output` section -> OutputAgent.parse_key_outputs ->
+    process_stage (the producer's file exists) -> updateLogs -> output.txt -> ConfigurationFileToJson -> output.json"""
     name = "key-outputs"
     files = ["output.txt", "output.json"]
-    classes = ["plain", "backslash", "equals", "percent", "nonascii"]      # values are file names
+    fields = ["description", "type", "name", "filename"]
+    pairs_quick = [("description", "type"), ("name", "description"), ("description", "filename")]
+    config_time = True
     reset_possible = True
+    DEFAULT = {"name": "res", "description": "what it is", "type": "csv", "filename": "out.txt"}
 
     def __init__(self, scratch, tag="o"):
         super().__init__(scratch)
         import experiment.runtime.output as O
+        self.O = O
         self.modules = [O]
-        self.exp = _experiment(scratch, "output_" + tag, _flowir())
-        self.agent = O.OutputAgent(self.exp)
+        self.tag = tag
+        self.configure({})
+
+    def classes_for(self, field):
+        return IDENT_CLASSES if field in ("name", "filename") else CLASSES
+
+    def configure(self, assign):
+        """assign: field -> text (missing: the default); builds the experiment and the agent from the workflow definition"""
+        from .. import realenv
+        import experiment.model.errors as E
+        a = dict(self.DEFAULT)
+        a.update({k: v for k, v in assign.items() if v is not None})
+        self.assign = a
+        flowir = {"components": [realenv.simple_component("c", 0, args="hi")],
+                  "output": {a["name"]: {"data-in": "stage0.c/%s:copy" % a["filename"], "description": a["description"],
+                                         "type": a["type"]}}}
+        try:
+            self.exp = _experiment(self.scratch, "output_" + self.tag, flowir)
+            self.agent = self.O.OutputAgent(self.exp)
+            wd = self.exp.graph.nodes["stage0.c"]["componentInstance"].directory
+            with open(os.path.join(wd, a["filename"]), "w") as f:
+                f.write("data\n")
+        except (E.FlowException, E.ExperimentInvalidConfigurationError, ValueError, OSError) as e:
+            raise NotApplicable("%s: %s" % (type(e).__name__, str(e)[:100]))
         out = os.path.realpath(self.exp.instanceDirectory.outputDir)
         self.path = {"output.txt": os.path.join(out, "output.txt"), "output.json": os.path.join(out, "output.json")}
-        self.val = None
 
     def reset(self):
         for p in self.path.values():
@@ -294,23 +356,13 @@ class OutputAd(Adapter):
                 os.remove(p)
 
     def set_value(self, v):
-        """what OutputAgent.process_stage records for a key output whose file is called v"""
-        self.n += 1
-        self.val = v
-        st = self.agent.dataReferences["res"]["status"]
-        st["version"] = self.n
-        st["lastStage"] = 0
-        st["final"] = "yes" if self.n % 2 else "no"
-        st["creationTime"] = 1700000000.5 + self.n
-        st["lastLocation"] = None if v is None else os.path.join("stages", "stage0", "c", v)
-        if v is None:
-            st["version"] = 0            # nothing produced yet: the listing is empty
+        self.n += 1                   # every process_stage produces a new version of the listing by itself
 
-    def keep(self):
-        pass
+    def set_field(self, g, v, bump=True):
+        raise MachineryError("the key-output fields are fixed when the agent is configured")
 
     def update(self):
-        return self.agent.updateLogs()
+        return self.agent.process_stage(0)
 
     def load(self, f, data):
         p = self._tmpfile(data, f)
@@ -328,15 +380,22 @@ class OutputAd(Adapter):
         return super().load_safe(f, data if data is not None else (b"{}" if f.endswith(".json") else b""))
 
     def want(self, f):
-        if self.val is None:
-            return {}
-        st = self.agent.dataReferences["res"]["status"]
-        return {"res": {"filename": self.val, "filepath": os.path.join("stages", "stage0", "c", self.val),
-                        "description": "", "type": "", "creationtime": "%s" % st["creationTime"],
-                        "version": "%d" % self.n, "production": "yes", "final": st["final"]}}
+        """the values the agent holds (and last wrote), in the shape of the listing"""
+        w = {}
+        for name, info in self.agent.dataReferences.items():
+            st = info["status"]
+            if st["version"] == 0:
+                continue
+            w[name] = {"filename": os.path.split(st["lastLocation"])[1], "filepath": st["lastLocation"],
+                       "description": st["description"], "type": st["type"], "creationtime": "%s" % st["creationTime"],
+                       "version": "%d" % st["version"], "production": st["production"], "final": st["final"]}
+        return w
 
 
 class _ConfBase(Adapter):
+    fields = ["arguments", "description", "variable", "manifest-source"]
+    pairs_quick = [("arguments", "description"), ("variable", "manifest-source")]
+
     def __init__(self, scratch, tag):
         super().__init__(scratch)
         import experiment.model.conf as C
@@ -348,7 +407,9 @@ class _ConfBase(Adapter):
         cd = self.conf._conf_dir
         self.path = {"flowir_instance.yaml": os.path.join(cd, "flowir_instance.yaml"),
                      "manifest.yaml": os.path.join(cd, "manifest.yaml")}
-        self.comps = [("0", "c", "echo", "hi")]
+        self.comps = [["0", "c", "echo", "hi"]]
+        self.outs = {}
+        self.vars = {}
         self.extra_manifest = {}
         # the loader gets its own copy of the instance directory
         self.ldir = os.path.join(scratch, "load_" + self.name + "_" + tag)
@@ -363,20 +424,30 @@ class _ConfBase(Adapter):
         # has nothing to do with how the file is stored): the percent class has no such token here
         return value(cls, i).replace("%(name)s", "% (name)s")
 
-    def set_value(self, v):
-        """what a loop iteration does: new components join the unreplicated FlowIR; a new folder joins the manifest"""
-        self.n += 1
-        if v is not None:
-            name = "n%d" % self.n
+    def set_field(self, g, v, bump=True):
+        """what a loop iteration / a patch of the running instance does to the unreplicated FlowIR and the manifest"""
+        if bump:
+            self.n += 1
+        if v is None:
+            return
+        k = len(self.comps) + len(self.outs) + len(self.vars) + len(self.extra_manifest)
+        if g == "arguments":
+            name = "n%d" % k
             self.conf._unreplicated.add_component({"stage": 0, "name": name,
                                                    "command": {"executable": "echo", "arguments": v}})
-            self.comps.append(("0", name, "echo", v))
-            key, src = "folder%d" % self.n, "/data/%s/d%d:copy" % (v, self.n)
+            self.comps.append(["0", name, "echo", v])
+        elif g == "description":
+            name = "ko%d" % k
+            self.conf._unreplicated.add_output(name, {"data-in": "stage0.c/out.txt:copy", "description": v})
+            self.outs[name] = v
+        elif g == "variable":
+            name = "var%d" % k
+            self.conf._unreplicated.set_global_variable(name, v)
+            self.vars[name] = v
+        else:
+            key, src = "folder%d" % k, "/data/%s/d%d:copy" % (v, k)
             self.conf._manifest.update({key: src})
             self.extra_manifest[key] = src
-
-    def keep(self):
-        pass
 
     def load(self, f, data):
         if f == "manifest.yaml":
@@ -389,18 +460,23 @@ class _ConfBase(Adapter):
         if not c.is_instance:
             raise Unloadable("the loader fell back to the package definition")
         raw = c.get_unreplicated_flowir(return_copy=False).raw()
-        return sorted([str(x["stage"]), x["name"], x["command"]["executable"], x["command"].get("arguments", "")]
-                      for x in raw["components"])
+        return {"components": sorted([str(x["stage"]), x["name"], x["command"]["executable"], x["command"].get("arguments", "")]
+                                     for x in raw["components"]),
+                "descriptions": {k: v.get("description") for k, v in (raw.get("output") or {}).items() if k.startswith("ko")},
+                "variables": {k: v for k, v in ((raw.get("variables") or {}).get("default", {}).get("global", {}) or {}).items()
+                              if k.startswith("var")}}
 
     def want(self, f):
         if f == "manifest.yaml":
             return dict(self.extra_manifest)
-        return sorted(list(x) for x in self.comps)
+        return {"components": sorted(list(x) for x in self.comps), "descriptions": dict(self.outs), "variables": dict(self.vars)}
 
 
 class FlowirAd(_ConfBase):
     name = "flowir-instance"
     files = ["flowir_instance.yaml"]
+    fields = ["arguments", "description", "variable"]
+    pairs_quick = []
 
     def __init__(self, scratch, tag="f"):
         super().__init__(scratch, tag)
@@ -420,10 +496,13 @@ class InstanceFilesAd(_ConfBase):
     def update(self):
         errs = []
         self.conf._generate_instance_files(True, True, errs)
-        return not errs
+        if errs:
+            raise errs[0]
+        return True
 
 
 ADAPTERS = [StatusAd, OutputAd, DetailsAd, FlowirAd, InstanceFilesAd]
+FIDELITY_ADAPTERS = [StatusAd, OutputAd, DetailsAd, InstanceFilesAd]      # FlowirAd writes with the same function as InstanceFilesAd
 
 
 # =====================================================================================================================
@@ -433,7 +512,7 @@ def design_runs(chk, gen, thorough):
     inv = "INVARIANT TypeOK\nINVARIANT Atomic\nINVARIANT OldOrNew\nINVARIANT Fidelity\nINVARIANT CleanUpdateCommits\n" \
           "PROPERTY CommitIsAtomic\nCHECK_DEADLOCK FALSE\n"
     consts = ("CONSTANTS\n  Live = {\"f\", \"g\"}\n  Tmp = {\"t1\", \"t2\", \"t3\"}\n  NW = %d\n  MaxUpd = %d\n"
-              "  Classes = {\"plain\", \"newline\"}\n  FaultOps = {\"open\", \"write\", \"close\", \"rename\"}\n"
+              "  Classes = {\"plain\", \"newline\"}\n  Fields = {\"x\", \"y\"}\n  FaultOps = {\"open\", \"write\", \"close\", \"rename\"}\n"
               "  MaxFaults = %d\n  CrashOn = TRUE\n  Emit = FALSE\n") % ((3, 3, 3) if thorough else (2, 2, 2))
     c = _cfg(os.path.join(gen, "AtomicFile_mc_%s.cfg" % chk.tier), consts + "SPECIFICATION Spec\n" + inv)
     r = tlc.run_tlc("AtomicFile", c, timeout=800, coverage=True)
@@ -454,26 +533,34 @@ def design_runs(chk, gen, thorough):
     chk.add_tlc(r)
 
 
+E1_CLASSES = ["plain", "newline", "optionline", "leadblank", "backslash", "percent", "nonascii"]
+
+
 def emit_histories(chk, gen, thorough):
-    """finished update histories of the specified updater, with the value a reader must get"""
-    runs = [(3, '{"write"}')] if not thorough else [(3, '{"write", "rename"}'), (2, '{"open", "write", "close", "rename"}'), (4, "{}")]
-    hists = {}
-    for maxupd, faults in runs:
-        cls = ", ".join('"%s"' % c for c in CLASSES)
-        c = _cfg(os.path.join(gen, "AtomicFile_hist_%s_%d.cfg" % (chk.tier, maxupd)),
+    """finished update histories of the specified updater, with what a reader must get, per family:
+    "one": one free-text field, histories with failed updates (status.txt);  "two": two fields x, y, fault-free"""
+    runs = [("one", '{"x"}', 3, E1_CLASSES, '{"write"}'), ("one", '{"x"}', 2, CLASSES, '{"write"}'),
+            ("two", '{"x", "y"}', 2, CLASSES, "{}")]
+    if thorough:
+        runs = [("one", '{"x"}', 3, E1_CLASSES + ["equals"], '{"write", "rename"}'),
+                ("one", '{"x"}', 2, CLASSES, '{"open", "write", "close", "rename"}'),
+                ("one", '{"x"}', 4, E1_CLASSES, "{}"), ("two", '{"x", "y"}', 2, CLASSES, "{}")]
+    fam = {"one": {}, "two": {}}
+    for j, (label, fields, maxupd, classes, faults) in enumerate(runs):
+        cls = ", ".join('"%s"' % c for c in classes)
+        c = _cfg(os.path.join(gen, "AtomicFile_hist_%s_%d.cfg" % (chk.tier, j)),
                  "CONSTANTS\n  Live = {\"f\"}\n  Tmp = {\"t1\", \"t2\", \"t3\", \"t4\", \"t5\"}\n  NW = 1\n  MaxUpd = %d\n"
-                 "  Classes = {%s}\n  FaultOps = %s\n  MaxFaults = %d\n  CrashOn = FALSE\n  Emit = TRUE\n"
-                 "SPECIFICATION Spec\nINVARIANT EmitHist\nINVARIANT Fidelity\nCHECK_DEADLOCK FALSE\n" % (maxupd, cls, faults, maxupd))
+                 "  Classes = {%s}\n  Fields = %s\n  FaultOps = %s\n  MaxFaults = %d\n  CrashOn = FALSE\n  Emit = TRUE\n"
+                 "SPECIFICATION Spec\nINVARIANT EmitHist\nINVARIANT Fidelity\nCHECK_DEADLOCK FALSE\n" % (maxupd, cls, fields, faults, maxupd))
         r = tlc.run_tlc("AtomicFile", c, workers=1, timeout=800)
         if not r["ok"]:
             raise MachineryError("AtomicFile.tla history run failed: %s\n%s" % (r["violated"], r["out"][-1500:]))
         chk.add_tlc(r)
         for case in r["cases"]:
-            key = json.dumps(case["hist"], sort_keys=True)
-            hists[key] = case
-    if len(hists) < 300:
-        raise MachineryError("TLC emitted only %d histories" % len(hists))
-    return [hists[k] for k in sorted(hists)]
+            fam[label][json.dumps(case["hist"], sort_keys=True)] = case
+    if len(fam["one"]) < 300 or len(fam["two"]) < 300:
+        raise MachineryError("TLC emitted only %d / %d histories" % (len(fam["one"]), len(fam["two"])))
+    return {k: [v[h] for h in sorted(v)] for k, v in fam.items()}
 
 
 def tla_trace_module(traces):
@@ -501,7 +588,7 @@ def validate_traces(chk, gen, traces, label):
             f.write(tla_trace_module(traces))
         ntmp = 1 + max([int(e[k][3:]) for t in traces for e in t["events"] for k in ("path", "dst") if e[k].startswith("tmp")] + [1])
         c = _cfg(os.path.join(d, "trace.cfg"),
-                 "CONSTANTS\n  Live = {%s}\n  Tmp = {%s}\n  NW = 0\n  MaxUpd = 1\n  Classes = {\"plain\"}\n  FaultOps = {}\n"
+                 "CONSTANTS\n  Live = {%s}\n  Tmp = {%s}\n  NW = 0\n  MaxUpd = 1\n  Classes = {\"plain\"}\n  Fields = {\"x\"}\n  FaultOps = {}\n"
                  "  MaxFaults = 0\n  CrashOn = FALSE\n  Emit = FALSE\nINIT TInit\nNEXT TNext\nINVARIANT EmitT\nCHECK_DEADLOCK FALSE\n" % (
                      ", ".join('"%s"' % x for x in LIVE_NAMES), ", ".join('"tmp%d"' % i for i in range(1, ntmp + 1))))
         r = tlc.run_tlc("AtomicFile_trace", c, workers=1, timeout=800, jvm=["-DTLA-Library=" + d])
@@ -577,7 +664,15 @@ def atomicity(chk, ad, thorough, found):
         ad.set_value(ad.render(cls, k + 1))
         rec, res, exc = ad.recorded_update()
         if exc is not None:
-            raise MachineryError("%s: fault-free update raised %r" % (ad.name, exc))
+            # the real writer raises on a valid (plain / backslash) value without any injected fault: a violation, not a
+            # failure of the machinery; the writer is not examined further
+            key = "%s:fault-free-update-raises:%s" % (ad.files[0], type(exc).__name__)
+            if key not in found:
+                found[key] = ("%s: a fault-free update with %s values raised %s: %s" % (ad.name, cls, type(exc).__name__, str(exc)[:200]),
+                              {"kind": "atomic", "adapter": ad.name})
+            yield []
+            yield []
+            return 0
         after = ad.disk()
         base.append({"label": "%s#%d" % (ad.name, k), "cls": cls, "reset": reset, "rec": rec, "events": _events(rec),
                      "exist": [f for f in ad.files if before[f] is not None], "enum": True,
@@ -672,7 +767,10 @@ def atomicity(chk, ad, thorough, found):
             # resynchronise: a clean update so that the next fault starts from a complete version
             rec2, res2, exc2 = ad.recorded_update(snapshots=False)
             if exc2 is not None:
-                raise MachineryError("%s: clean update after an injected fault raised %r" % (ad.name, exc2))
+                key = "%s:update-after-io-error-raises:%s" % (ad.files[0], type(exc2).__name__)
+                if key not in found:
+                    found[key] = ("%s: the first fault-free update after an I/O error in operation %d (%s) raised %s: %s" % (
+                        ad.name, i, e["op"], type(exc2).__name__, str(exc2)[:200]), {"kind": "atomic", "adapter": ad.name})
     fverd, _, _ = yield faulted
     for j, t in enumerate(faulted, 1):
         chk.trace_validated()
@@ -711,13 +809,37 @@ Adapter.path_real = _path_real
 # =====================================================================================================================
 # Fidelity histories
 # =====================================================================================================================
-def run_history(ad, hist):
-    """executes one history on the real writer; returns (expected projection, got projection, info) per live file"""
-    last_ok, want, cur, epoch = None, None, None, 0
+def run_history(ad, hist, fmap):
+    """executes one history on the real writer; fmap: abstract field (x, y) -> field of the writer.
+    Returns None (not steerable), "nothing-committed", ("n/a", why), or (want, got, info) per live file"""
+    last_ok, want, epoch = None, None, 0
+    if ad.config_time:
+        # the fields are fixed by the workflow definition: the history's final assignment configures the writer, every entry
+        # of the history is one update; what is read back is compared after every update
+        assign, classes = {}, {}
+        for i, h in enumerate(hist):
+            if not h["keep"]:
+                assign[fmap[h["fld"]]] = ad.render(h["set"], i + 1)
+                classes[fmap[h["fld"]]] = h["set"]
+        try:
+            ad.configure(assign)
+        except NotApplicable as e:
+            return ("n/a", str(e))
+        for i, h in enumerate(hist):
+            ad.set_value(None)
+            rec, res, exc = ad.recorded_update(snapshots=False)
+            want = {f: ad.want_safe(f) for f in ad.files}
+            disk = ad.disk()
+            got = {f: ad.load_safe(f, disk[f], inplace=True) for f in ad.files}
+            info = {"classes": classes, "persisted": i + 1, "exc": exc}
+            if any(got[f] != want[f] for f in ad.files):
+                break
+        return want, got, info
+    cur = {}
     for i, h in enumerate(hist):
         if not h["keep"]:             # the owner assigns a new value; a kept value is simply persisted again
-            cur = ad.render(h["c"], i + 1)
-            ad.set_value(cur)
+            cur[fmap[h["fld"]]] = h["set"]
+            ad.set_field(fmap[h["fld"]], ad.render(h["set"], i + 1))
             epoch = i
         fault = None
         if h["f"] != "none":
@@ -730,7 +852,7 @@ def run_history(ad, hist):
         if h["ok"]:
             last_ok = i
             want = {f: ad.want_safe(f) for f in ad.files}
-            info = {"cls": h["c"], "value": cur, "persisted": i - epoch + 1}
+            info = {"classes": dict(cur), "persisted": i - epoch + 1, "exc": exc}
     if last_ok is None:
         return "nothing-committed"
     disk = ad.disk()
@@ -738,70 +860,136 @@ def run_history(ad, hist):
     return want, got, info
 
 
-def fidelity(chk, ad_cls, hists, scratch, maxlen, faults, only=None):
+def hist_text(hist, fmap):
+    return " ".join("%s%s%s" % ("keep" if h["keep"] else "%s:=%s" % (fmap[h["fld"]], h["set"]), "", "!" + h["f"] if h["f"] != "none" else "")
+                    for h in hist)
+
+
+def select_histories(ad_cls, fam, thorough):
+    """(history case, field map) pairs executed on a writer"""
+    probe_fields = ad_cls.fields
+    if len(probe_fields) == 1:
+        return [(c, {"x": probe_fields[0]}) for c in fam["one"]]
+    pairs = [(a, b) for i, a in enumerate(probe_fields) for b in probe_fields[i + 1:]] if thorough else ad_cls.pairs_quick
+    out, seen = [], set()
+    for (fa, fb) in pairs:
+        fmap = {"x": fa, "y": fb}
+        for c in fam["two"]:
+            hist = c["hist"]
+            sets = [h for h in hist if not h["keep"]]
+            if not thorough and len(hist) > 1:
+                # quick: one field with any class, or both fields with the structural classes
+                flds = set(h["fld"] for h in sets)
+                if len(flds) > 1 and not all(h["set"] in STRUCTURAL for h in sets):
+                    continue
+                if len(flds) == 1 and len(sets) > 1 and not all(h["set"] in STRUCTURAL for h in sets):
+                    continue
+            if ad_cls.config_time:
+                final = {}
+                for h in sets:
+                    final[fmap[h["fld"]]] = h["set"]
+                if not final or len(hist) < 2:
+                    continue               # n updates of one assignment include the shorter history
+                k = (tuple(sorted(final.items())),)
+            else:
+                k = (fa, fb, json.dumps(hist, sort_keys=True))
+                if all(h["fld"] == "x" for h in sets) and ("x-only", fa, json.dumps(hist, sort_keys=True)) in seen:
+                    continue
+                if all(h["fld"] == "x" for h in sets):
+                    seen.add(("x-only", fa, json.dumps(hist, sort_keys=True)))
+            if k in seen:
+                continue
+            seen.add(k)
+            out.append((c, fmap))
+    return out
+
+
+def fidelity(chk, ad_cls, fam, scratch, thorough, only=None, todo=None):
     n = 0
     found = {}
-    ok_classes = set(ad_cls.classes) | {"unset"}
-    if locale.getpreferredencoding(False).lower().replace("-", "") != "utf8":
-        ok_classes.discard("nonascii")
+    utf8 = locale.getpreferredencoding(False).lower().replace("-", "") == "utf8"
+    if todo is None:
+        todo = select_histories(ad_cls, fam, thorough)
+    probe = None
+
+    def applicable(case, fmap):
+        for h in case["hist"]:
+            if h["keep"]:
+                if h is case["hist"][0] and ad_cls is not StatusAd and not ad_cls.config_time:
+                    return False        # only the status file has a state before the first assignment (no error description)
+                continue
+            if h["set"] == "nonascii" and not utf8:
+                return False
+            if h["set"] not in probe.classes_for(fmap[h["fld"]]):
+                return False
+        return True
+    # single assignments first: the key of a failing history names the (field, class) that already fails on its own
+    todo = sorted(todo, key=lambda cf: (len(set((h["fld"], h["set"]) for h in cf[0]["hist"] if not h["keep"])), len(cf[0]["hist"]),
+                                        json.dumps(cf[0]["hist"], sort_keys=True), sorted(cf[1].items())))
+    fresh_bad = set()           # (field, class) that is already read back wrongly after being persisted once
     ad = None
-    todo = []
-    for case in hists:
+    k = 0
+    napp = 0
+    for case, fmap in todo:
         hist = case["hist"]
-        if len(hist) > maxlen or any(h["c"] not in ok_classes for h in hist):
-            continue
-        if not faults and any(h["f"] != "none" for h in hist):
-            continue
-        if hist[0]["keep"] and ad_cls is not StatusAd:
-            continue            # only the status file has a state before the first assignment (no error description)
-        todo.append(case)
-    todo.sort(key=lambda c: (len(c["hist"]), json.dumps(c["hist"], sort_keys=True)))
-    fresh_bad = set()           # (file, class) that is already read back wrongly after being persisted once
-    for k, case in enumerate(todo):
-        hist = case["hist"]
-        if ad is None or k % (200 if ad_cls is StatusAd else 8) == 0:
+        if ad is None or (not ad_cls.config_time and k % (200 if ad_cls is StatusAd else 8) == 0):
             if ad is not None:
                 ad.cleanup()
             ad = ad_cls(scratch, tag="fid")
+            probe = ad
         elif ad_cls is StatusAd:
             ad.reinit()
-        elif ad.reset_possible:
+        elif ad.reset_possible and not ad_cls.config_time:
             ad.reset()
-        r = run_history(ad, hist)
+        if not applicable(case, fmap):
+            continue
+        k += 1
+        r = run_history(ad, hist, fmap)
         if r is None:
             continue
+        if isinstance(r, tuple) and r[0] == "n/a":
+            napp += 1
+            continue
         n += 1
-        chk.evaluated(("hist", ad_cls.name, json.dumps(hist, sort_keys=True)))
+        chk.evaluated(("hist", ad_cls.name, sorted(fmap.items()), json.dumps(hist, sort_keys=True)))
         if r == "nothing-committed":
             continue
         want, got, info = r
-        spec_read = case["read"]["f"]
-        if spec_read != info["cls"]:
-            raise MachineryError("history %s: the driver expects class %s, the specification %s" % (hist, info["cls"], spec_read))
-        for f in ad.files:
-            if got[f] != want[f]:
-                # key = class of the failing history: a value of class c is not read back even when persisted once, or
-                # (only then) a value that is persisted again unchanged comes back different
-                if info["persisted"] == 1:
-                    fresh_bad.add((f, info["cls"]))
-                if (f, info["cls"]) in fresh_bad:
-                    key = "%s:fidelity:%s" % (f, info["cls"])
-                else:
-                    key = "%s:fidelity:same-value-persisted-again" % f
-                if key not in found:
-                    found[key] = ("%s: after the update history %s (class of value, k = re-persisted unchanged, ! = failed update) "
-                                  "the real loader returns %s; last written: %s" % (
-                                      ad.name, " ".join("%s%s%s" % (h["c"], "(k)" if h["keep"] else "", "!" + h["f"] if h["f"] != "none" else "") for h in hist),
-                                      _show(got[f], 300), _show(want[f], 300)),
-                                  {"kind": "fidelity", "adapter": ad.name, "hist": hist, "read": case["read"]})
+        if not ad_cls.config_time:
+            spec_read = case["read"]["f"]
+            mine = {g: info["classes"].get(fmap[g], "unset") for g in fmap}
+            if any(spec_read[g] != mine[g] for g in fmap):
+                raise MachineryError("history %s: the driver expects classes %s, the specification %s" % (hist, mine, spec_read))
+        bad = [f for f in ad.files if got[f] != want[f]]
+        if bad:
+            f = bad[0]        # output.json is derived from output.txt: one report per history
+            nonplain = sorted((g, c) for g, c in info["classes"].items() if c not in ("plain", "unset"))
+            single = nonplain if len(nonplain) == 1 else ([] if nonplain else sorted(info["classes"].items())[:1])
+            if (info["persisted"] == 1 or ad_cls.config_time) and single:
+                fresh_bad.update(single)          # this (field, class) is read back wrongly on its own
+            known = [gc for gc in nonplain if gc in fresh_bad] or [gc for gc in info["classes"].items() if gc in fresh_bad]
+            if known:
+                key = "%s:fidelity:%s:%s" % ((f,) + tuple(known[0]))
+            elif info["persisted"] > 1:
+                key = "%s:fidelity:same-value-persisted-again" % f
+            else:
+                key = "%s:fidelity:%s" % (f, "+".join("%s:%s" % gc for gc in (nonplain or sorted(info["classes"].items()))))
+            if key not in found:
+                found[key] = ("%s: after the update history [%s] (field:=class of the value assigned before an update, keep = "
+                              "re-persisted unchanged, ! = failed update)%s the real loader returns %s; last written: %s" % (
+                                  ad.name, hist_text(hist, fmap),
+                                  " the update raised %s: %s;" % (type(info["exc"]).__name__, str(info["exc"])[:120]) if info.get("exc") else "",
+                                  _show(got[f], 300), _show(want[f], 300)),
+                              {"kind": "fidelity", "adapter": ad.name, "hist": hist, "read": case["read"], "fmap": fmap})
         if n % 97 == 0:
-            chk.sample({"writer": ad.name, "history": ["%s%s%s" % (h["c"], "(keep)" if h["keep"] else "", "!" + h["f"] if h["f"] != "none" else "") for h in hist],
-                        "read_back_equals_last_written": all(got[f] == want[f] for f in ad.files)}, limit=8)
+            chk.sample({"writer": ad.name, "history": hist_text(hist, fmap),
+                        "read_back_equals_last_written": not bad}, limit=8)
     if ad is not None:
         ad.cleanup()
-    for k in sorted(found):
-        if only is None or k == only:
-            chk.violation(k, found[k][0], found[k][1])
+    for key in sorted(found):
+        if only is None or key == only:
+            chk.violation(key, found[key][0], found[key][1])
+    chk.cov.setdefault("not_applicable_assignments", {})[ad_cls.name] = napp
     return n
 
 
@@ -826,7 +1014,7 @@ def _run(chk, thorough, gen, only_adapter, only_key):
     replaying = only_key is not None
     if not replaying:
         design_runs(chk, gen, thorough)
-    hists = emit_histories(chk, gen, thorough) if not replaying else []
+    hists = emit_histories(chk, gen, thorough) if not replaying else {"one": [], "two": []}
     nfault = 0
     found = {}
     ads = [cls(chk.scratch) for cls in ADAPTERS if not only_adapter or cls.name == only_adapter]
@@ -854,26 +1042,27 @@ def _run(chk, thorough, gen, only_adapter, only_key):
         if only_key is None or k == only_key:
             chk.violation(k, found[k][0], found[k][1])
     nh = 0
-    for cls in ADAPTERS:
+    for cls in FIDELITY_ADAPTERS:
         if replaying or (only_adapter and cls.name != only_adapter):
             continue
-        if cls is StatusAd:
-            nh += fidelity(chk, cls, hists, chk.scratch, 4, True, only=only_key)
-        else:
-            nh += fidelity(chk, cls, hists, chk.scratch, 3 if thorough else 2, False, only=only_key)
+        nh += fidelity(chk, cls, hists, chk.scratch, thorough, only=only_key)
     chk.cov["fault_points_realised"] = nfault
     chk.cov["histories_executed"] = nh
     chk.cov["rule"] = ("atomicity: for each of the 5 real writers (6 persisted files) every operation boundary of a create / update / "
                        "update sequence is a crash point (snapshot -> real loader) and every operation an I/O error point (long write runs "
                        "sampled: first/last three + even spread); all recorded traces validated by TLC against AtomicFile_trace.  "
-                       "fidelity: every finished history of the specified updater emitted by TLC (7 value classes + keep, failed updates) "
-                       "executed on Status; fault-free histories of length <= %d on the other writers" % (3 if thorough else 2))
+                       "fidelity: every finished history of the specified updater emitted by TLC: one field (status.txt error description) "
+                       "x 7 classes + keep x failed updates, length <= 3 and all 13 classes, length <= 2; two fields x 13 classes + keep, "
+                       "length <= 2, mapped to the pairs of free-text fields of the other writers (quick: the listed pairs, one field "
+                       "with any class or both with the structural classes; thorough: all pairs and classes)")
     chk.cov["exhaustive"] = True
     chk.assumptions += [
         "a crash is modelled at operation granularity with every write flushed (the finest interleaving); fsync/ordering of the "
         "underlying file system (rename durability) is not modelled",
         "value classes stand for all strings: one concrete representative per class and update index",
-        "values with leading/trailing blanks are not in the classes (the status loader strips them by design)",
+        "identifiers (the name of a key output, the name of its file) are single-line, non-empty and do not start with a blank: "
+        "they get the classes without line breaks / leading blanks; free text gets all 13 classes",
+        "a value the configuration layer refuses (FlowIR validation, reference grammar) never reaches a writer: not applicable",
         "conf/manifest.yaml has no reader inside the runtime; Manifest.fromFile (the loader of manifest files) is used",
         "flowir_instance.yaml versions are produced the way a DoWhile iteration does (add_component on the unreplicated FlowIR, then "
         "store_unreplicated_flowir_to_disk), not by running a loop",
@@ -890,6 +1079,6 @@ def replay(path):
     if rp["kind"] == "fidelity":
         from .. import realenv  # noqa: F401
         cls = [c for c in ADAPTERS if c.name == rp["adapter"]][0]
-        fidelity(chk, cls, [{"hist": rp["hist"], "read": rp["read"]}], chk.scratch, 99, True)
+        fidelity(chk, cls, None, chk.scratch, True, todo=[({"hist": rp["hist"], "read": rp["read"]}, rp["fmap"])])
         return chk.finish()
     return run("quick", only_adapter=rp["adapter"], only_key=d["key"], chk=chk)
